@@ -1,6 +1,10 @@
 //! C11: matrix resizing histories on a real `Matrix<E>`; the same object keeps being used after
 //! a caught panic.  Case language: see coq/theories/Run/RunC11.v.
 //!   (11 1 start (op ...))  ->  (2) | (0 (obs (o obs) ...))
+//!   (11 2 S S (i ...))     ->  accepts probes, enum-built against method-built
+//!   (11 3 r c S S (i ...)) ->  the slice-algebra tier: accepts of the enum-built and of the method-built
+//!                              expression printed SEPARATELY, Slice2D::accepts over the whole grid for both
+//!                              builder orders, and the four retention forms on a from_fn start
 //! Every history is run for two element types — `i64` and a heap allocated, non-Copy `Heap` —
 //! and both must produce the same line.
 use crate::guarded;
@@ -283,9 +287,83 @@ fn accepts_case(args: &[Sx]) -> Sx {
     l(vec![l(ra), l(rb), l(rab)])
 }
 
+/// `(11 3 r c S S (i ...))`: every component is printed on its own and compared with the model (no
+/// cross-check between the enum-built and the method-built expression here: a builder method that
+/// changes what its result accepts shows up as a model-vs-implementation disagreement in ITS component).
+fn algebra_case(args: &[Sx]) -> Sx {
+    if args.len() != 6 {
+        return bad_case();
+    }
+    let (Some(r), Some(c), Some(extra)) = (args[1].usize(), args[2].usize(), args[5].usizes()) else {
+        return bad_case();
+    };
+    if !(1..=8).contains(&r) || !(1..=8).contains(&c) {
+        return bad_case();
+    }
+    let (sa, sb) = (&args[3], &args[4]);
+    if slice(sa).is_none() || slice(sb).is_none() {
+        return bad_case();
+    }
+    let bools = |s: &Slice, n: usize| -> Sx {
+        l((0..n + 2).chain(extra.iter().copied()).map(|i| boolean(s.accepts(i))).collect())
+    };
+    let grid = |s: &Slice2D| -> Sx {
+        let mut out = vec![];
+        for i in 0..r + 2 {
+            for j in 0..c + 2 {
+                out.push(boolean(s.accepts(i, j)));
+            }
+        }
+        l(out)
+    };
+    let by_enum = |x: &Sx| slice(x).unwrap();
+    let by_methods = |x: &Sx| slice_by_methods(x).unwrap();
+    fn start(r: usize, c: usize) -> Matrix<i64> {
+        Matrix::from_fn((r, c), |(i, j)| 100 + 10 * i as i64 + j as i64)
+    }
+    let retain_mut_with = |s: Slice2D| -> Sx {
+        let mut m = start(r, c);
+        let fine = guarded(|| m.retain_mut(s)).is_some();
+        l(vec![z(if fine { 0 } else { 2 }), observe(&m)])
+    };
+    let retain_with = |s: Slice2D| -> Sx {
+        let m = start(r, c);
+        match guarded(|| m.retain(s)) {
+            Some(t) => l(vec![z(0), observe(&t)]),
+            None => l(vec![z(2), observe(&m)]),
+        }
+    };
+    // the heap allocated element type must see the same retention
+    let heap_agrees = {
+        let mut a: Matrix<Heap> = Matrix::from_fn((r, c), |(i, j)| Heap::of(100 + 10 * i as i64 + j as i64));
+        let fa = guarded(|| a.retain_mut(slices::new().columns(by_methods(sb)).rows(by_methods(sa)))).is_some();
+        let mut b = start(r, c);
+        let fb = guarded(|| b.retain_mut(slices::new().columns(by_methods(sb)).rows(by_methods(sa)))).is_some();
+        fa == fb && a.size() == b.size() && a.row_major_iter().map(|x| x.val()).eq(b.row_major_iter())
+    };
+    if !heap_agrees {
+        return inconsistent(1141);
+    }
+    l(vec![
+        bools(&by_enum(sa), r),
+        bools(&by_methods(sa), r),
+        bools(&by_enum(sb), c),
+        bools(&by_methods(sb), c),
+        grid(&Slice2D::new().rows(by_enum(sa)).columns(by_enum(sb))),
+        grid(&slices::new().columns(by_methods(sb)).rows(by_methods(sa))),
+        retain_mut_with(Slice2D::new().rows(by_enum(sa)).columns(by_enum(sb))),
+        retain_mut_with(slices::new().columns(by_methods(sb)).rows(by_methods(sa))),
+        retain_with(Slice2D::new().rows(by_methods(sa)).columns(by_methods(sb))),
+        retain_with(slices::new().columns(by_enum(sb)).rows(by_enum(sa))),
+    ])
+}
+
 pub fn run(args: &[Sx]) -> Sx {
     if args.first().and_then(|x| x.i64()) == Some(2) {
         return accepts_case(args);
+    }
+    if args.first().and_then(|x| x.i64()) == Some(3) {
+        return algebra_case(args);
     }
     let a = history::<i64>(args);
     let b = history::<Heap>(args);
@@ -304,7 +382,16 @@ fn apply<E: Elem>(m: &mut Matrix<E>, o: Op) -> Result<bool, i64> {
         Op::InsertColumnWith(c, vs) => guarded(|| m.insert_column_with(c, elems::<E>(vs).into_iter())).is_some(),
         Op::RemoveRow(r) => guarded(|| m.remove_row(r)).is_some(),
         Op::RemoveColumn(c) => guarded(|| m.remove_column(c)).is_some(),
-        Op::RetainMut(r, c) => guarded(|| m.retain_mut(slice2d(&r, &c))).is_some(),
+        Op::RetainMut(r, c) => {
+            // the method-built, columns-first Slice2D on a copy must retain the same matrix
+            let mut other = m.clone();
+            let fine_other = guarded(|| other.retain_mut(slice2d_other_order(&r, &c))).is_some();
+            let fine = guarded(|| m.retain_mut(slice2d(&r, &c))).is_some();
+            if fine != fine_other || other != *m {
+                return Err(1124);
+            }
+            fine
+        }
         Op::Retain(r, c) => {
             // both builder orders describe the same Slice2D
             let a = guarded(|| m.retain(slice2d(&r, &c)));
@@ -321,48 +408,93 @@ fn apply<E: Elem>(m: &mut Matrix<E>, o: Op) -> Result<bool, i64> {
                 _ => return Err(1121),
             }
         }
-        Op::Transpose => match guarded(|| m.transpose()) {
-            Some(t) => {
-                *m = t;
-                true
+        Op::Transpose => {
+            // the in-place form on a copy and the view's allocating form must give the same matrix
+            let mut in_place = m.clone();
+            let fine_in_place = guarded(|| in_place.transpose_mut()).is_some();
+            let through_view = guarded(|| MatrixView::from(&*m).transpose());
+            match guarded(|| m.transpose()) {
+                Some(t) => {
+                    if !fine_in_place || in_place != t || through_view.as_ref() != Some(&t) {
+                        return Err(1137);
+                    }
+                    *m = t;
+                    true
+                }
+                None => {
+                    if fine_in_place || through_view.is_some() {
+                        return Err(1137);
+                    }
+                    false
+                }
             }
-            None => false,
-        },
-        Op::TransposeMut => guarded(|| m.transpose_mut()).is_some(),
+        }
+        Op::TransposeMut => {
+            let allocated = guarded(|| m.transpose());
+            let fine = guarded(|| m.transpose_mut()).is_some();
+            if fine != allocated.is_some() || (fine && allocated.as_ref() != Some(&*m)) {
+                return Err(1138);
+            }
+            fine
+        }
         Op::Set(r, c, v) => {
-            // every way of writing one element must agree with `set`
-            let mut a = m.clone();
-            let wrote_a = guarded(|| *a.get_reference_mut(r, c) = E::of(v)).is_some();
-            let mut b = m.clone();
-            let wrote_b = match guarded(|| b.try_get_reference_mut(r, c).map(|cell| *cell = E::of(v))) {
-                Some(Some(())) => true,
-                Some(None) => false,
-                None => return Err(1130),
-            };
-            let wrote = guarded(|| m.set(r, c, E::of(v))).is_some();
-            if wrote_a != wrote || wrote_b != wrote || a != *m || b != *m {
-                return Err(1131);
+            // Every way of writing one element must agree.  The matrix under test itself is written
+            // through ONE of the forms (chosen by the arguments, so each form occurs inside the
+            // exhaustive tiers; wrappers are created here and dropped before the next operation),
+            // every other form writes to a copy and must leave the same matrix and outcome.
+            fn write_form<E: Elem>(form: usize, m: &mut Matrix<E>, r: usize, c: usize, v: i64) -> Result<bool, i64> {
+                Ok(match form {
+                    0 => guarded(|| m.set(r, c, E::of(v))).is_some(),
+                    1 => guarded(|| *m.get_reference_mut(r, c) = E::of(v)).is_some(),
+                    2 => match guarded(|| m.try_get_reference_mut(r, c).map(|cell| *cell = E::of(v))) {
+                        Some(Some(())) => true,
+                        Some(None) => false,
+                        None => return Err(1130),
+                    },
+                    3 => guarded(|| MatrixView::from(&mut *m).set(r, c, E::of(v))).is_some(),
+                    4 => guarded(|| {
+                        let (rows, columns) = m.size();
+                        m.range_mut(0..rows, 0..columns).set(r, c, E::of(v))
+                    })
+                    .is_some(),
+                    5 => guarded(|| *MatrixView::from(&mut *m).get_reference_mut(r, c) = E::of(v)).is_some(),
+                    6 => {
+                        // through the MatrixMut trait of a boxed mutable reference under a view
+                        let mut view = MatrixView::from(Box::new(&mut *m));
+                        match guarded(|| view.try_get_reference_mut(r, c).map(|cell| *cell = E::of(v))) {
+                            Some(Some(())) => true,
+                            Some(None) => false,
+                            None => return Err(1135),
+                        }
+                    }
+                    _ => {
+                        // an owned view that is unwrapped again
+                        let mut view = MatrixView::from(m.clone());
+                        let wrote = guarded(|| view.set(r, c, E::of(v))).is_some();
+                        *m = view.source();
+                        wrote
+                    }
+                })
             }
-            // ... also through the MatrixMut of views over the matrix
-            let mut e = m.clone();
-            let wrote_e = guarded(|| MatrixView::from(&mut e).set(r, c, E::of(v))).is_some();
-            let mut f = m.clone();
-            let wrote_f = guarded(|| {
-                let (rows, columns) = f.size();
-                f.range_mut(0..rows, 0..columns).set(r, c, E::of(v))
-            })
-            .is_some();
-            let mut g = MatrixView::from(m.clone());
-            let wrote_g = match guarded(|| g.try_get_reference_mut(r, c).map(|cell| *cell = E::of(v))) {
-                Some(Some(())) => true,
-                Some(None) => false,
-                None => return Err(1135),
-            };
-            if wrote_e != wrote || wrote_f != wrote || wrote_g != wrote || e != *m || f != *m || g.source() != *m {
-                return Err(1136);
+            const FORMS: usize = 8;
+            let chosen = (r % 5 + c % 7 + v.rem_euclid(11) as usize) % FORMS;
+            let before = m.clone();
+            let wrote = write_form(chosen, m, r, c, v)?;
+            if !wrote && *m != before {
+                return Err(1129);
+            }
+            for form in 0..FORMS {
+                if form == chosen {
+                    continue;
+                }
+                let mut copy = before.clone();
+                let wrote_copy = write_form(form, &mut copy, r, c, v)?;
+                if wrote_copy != wrote || copy != *m {
+                    return Err(1131 + 1000 * form as i64);
+                }
             }
             if wrote {
-                let mut d = m.clone();
+                let mut d = before.clone();
                 unsafe { *d.get_reference_unchecked_mut(r, c) = E::of(v) };
                 if d != *m || unsafe { m.get_reference_unchecked(r, c).val() } != v {
                     return Err(1132);
@@ -381,23 +513,55 @@ fn apply<E: Elem>(m: &mut Matrix<E>, o: Op) -> Result<bool, i64> {
         Op::MapMutWithIndex(k) => {
             let f = |x: E, i: usize, j: usize| E::of(x.val() + k * (10 * i as i64 + j as i64 + 1));
             let mapped = guarded(|| m.map_with_index(f));
+            // the view's in-place and allocating maps hand over the same (row, column) arguments
+            let mut through_view = m.clone();
+            let fine_view = guarded(|| MatrixView::from(&mut through_view).map_mut_with_index(f)).is_some();
+            let mapped_view = guarded(|| MatrixView::from(&*m).map_with_index(f));
+            // ... and so does the indexed mutable iterator
+            let mut through_iter = m.clone();
+            let fine_iter = guarded(|| {
+                for ((i, j), x) in through_iter.row_major_reference_mut_iter().with_index() {
+                    *x = f(x.clone(), i, j);
+                }
+            })
+            .is_some();
             let fine = guarded(|| m.map_mut_with_index(f)).is_some();
             if mapped.as_ref() != Some(&*m) || !fine {
                 return Err(1134);
             }
+            if !fine_view || through_view != *m || mapped_view.as_ref() != Some(&*m) || !fine_iter || through_iter != *m {
+                return Err(1139);
+            }
             fine
         }
         Op::PartitionFill(rp, cp, k, v) => {
+            // cell (i, j) of part k gets v + 10 i + j (distinguishable per cell), through one of the
+            // part's own mutable access paths
             let done = guarded(|| {
                 let mut parts = m.partition(&rp, &cp);
                 if let Some(part) = parts.get_mut(k) {
-                    if k % 2 == 0 {
-                        part.map_mut(|_| E::of(v));
-                    } else {
-                        let (rows, columns) = part.size();
-                        for i in 0..rows {
-                            for j in 0..columns {
-                                part.set(i, j, E::of(v));
+                    let (rows, columns) = part.size();
+                    let value = |i: usize, j: usize| E::of(v + 10 * i as i64 + j as i64);
+                    match (k + rows + columns) % 4 {
+                        0 => part.map_mut_with_index(|_, i, j| value(i, j)),
+                        1 => {
+                            for i in 0..rows {
+                                for j in 0..columns {
+                                    part.set(i, j, value(i, j));
+                                }
+                            }
+                        }
+                        2 => {
+                            // backwards, so that a mutable getter which mirrors is not hidden by the order
+                            for i in (0..rows).rev() {
+                                for j in (0..columns).rev() {
+                                    *part.get_reference_mut(i, j) = value(i, j);
+                                }
+                            }
+                        }
+                        _ => {
+                            for ((i, j), x) in part.row_major_reference_mut_iter().with_index() {
+                                *x = value(i, j);
                             }
                         }
                     }
